@@ -8,3 +8,4 @@ pub mod retry;
 pub mod specexec;
 pub mod tablets;
 pub mod streams;
+pub mod murmur3;
